@@ -12,6 +12,9 @@ def runs(tier, seed, replay):
         # model = implementation where the vector is small enough, metamorphic laws
         # count(A) = count(A,x) + count(A,-x), permutation/duplication/padding past 20 literals, sat = (count > 0)
         {"args": ["corpus", "--seed", str(seed), "--tier", tier, "--count", "0"]},
+        # CLI glue: the real binary's subcommands (count, count-features, core, urs, atomic-sets,
+        # count-queries / sat -j, stream-queries, to-cnf) against the library on the same file
+        {"args": ["cli", "--seed", str(seed), "--tier", tier, "--count", "1500" if tier == "thorough" else "150"]},
     ]
 
 
